@@ -520,6 +520,67 @@ def run(ctx):
     # the path on which everything is written (a write followed by `?` also has a path that stops early: a prefix of it)
     order = max(orders, key=len) if orders else []
     ctx.check(order == ["file", "rank"] and all(o_ == order[:len(o_)] for o_ in orders), "Square::fmt:order", "Square's Display does not format file then rank: %s" % order, loc(b), sample={"Square::fmt": order})
+    # Move's Display: origin, destination, then the promotion piece when there is one -- for every move value, with no case
+    # set apart by what the squares are (a null-move spelling for from == to is a text the parser does not read)
+    MV_T = T + "chess_move::Move"
+    b, ps = rpaths(f, "<%s as core::fmt::Display>::fmt" % MV_T)
+    from .c07 import tmpl as _tmpl
+    SELFP = ("P", "self")
+    n_okp = 0
+    for p in ps:
+        if not (p.end == "return" and p.ret[0] == "agg" and p.ret[2] == "Ok"):
+            continue
+        n_okp += 1
+        seq = []
+        lit = ""
+        for e in p.events:
+            if e.kind not in ("call", "inlined") or e.depth != 0:
+                continue              # (what a square's or piece's own Display writes is theirs: decided above)
+            val = None
+            if e.name.endswith("Argument<'_>::new_display") or e.name.endswith("core::fmt::Display>::fmt"):
+                a = e.args[0]
+                if a[0] == "ptr" and a[1] == SELFP and a[2]:
+                    val = ("field", ("obj", "self"), a[2][0][1])
+                elif a[0] == "ptr":
+                    val = (e.extra.get("pointees") or {}).get(0, a)
+                else:
+                    val = a
+            elif e.name.endswith("::write_char") and "core::fmt" in e.name:
+                val = e.args[1]
+                if val[0] == "int":
+                    lit += chr(val[1])
+                    continue
+            elif e.name.endswith("::write_str") and "core::fmt" in e.name:
+                a = e.args[1]
+                while a[0] in ("ref", "deref"):
+                    a = a[1]
+                lit += a[1] if a[0] == "str" else "?"
+                continue
+            elif "Arguments" in e.name and (e.name.endswith("::new") or e.name.endswith("from_str")):
+                try:
+                    lit += _tmpl(e.args[0]).replace("{}", "")
+                except Exception:
+                    lit += "?"
+                continue
+            if val is not None:
+                which = [n_ for n_ in ("from", "to", "promotion") if sym.contains(val, lambda y: y[0] == "field" and y[2] == n_ and y[1] in (("obj", "self"), ("param", "self")))]
+                seq.append(which[0] if len(which) == 1 else "?")
+        promo = None
+        plain_conds = True
+        for c in p.conds:
+            e_ = c[0]
+            if e_ == ("discr", ("field", ("obj", "self"), "promotion")):
+                promo = (c[1] == 1) if isinstance(c[1], int) else (False if 1 in c[1][1] else True)
+            elif sym.contains(e_, lambda y: y[0] == "call" and "core::fmt" in y[1]):
+                pass
+            else:
+                plain_conds = False
+        want = ["from", "to"] + (["promotion"] if promo else [])
+        ctx.check(seq == want and lit == "" and plain_conds and promo is not None, "Move::fmt",
+                  "Move's Display does not write origin, destination and (if any) the promotion piece for every move alike: wrote %s%s on a path deciding %s"
+                  % (seq, (" and the text %r" % lit) if lit else "", [sym.show(c[0])[:60] for c in p.conds if not sym.contains(c[0], lambda y: y[0] == "call" and "core::fmt" in y[1])]), loc(b),
+                  sample={"Move::fmt": want} if n_okp == 1 else None)
+    ctx.check(n_okp >= 2, "Move::fmt:paths", "Move's Display lacks the (no promotion, promotion) paths", loc(b))
     # Move::from_str
     mname = "<%s as core::str::traits::FromStr>::from_str" % (T + "chess_move::Move")
     b, ps = rpaths(f, mname, max_inline_blocks=120)
